@@ -26,7 +26,8 @@ type Set struct {
 	Quick  bool   // part of the quick tier on the memory KV
 	FileKV string // "", "quick" or "thorough": part of the reduced space of the file-backed KVs from that tier on
 	// Dups: which single re-deliveries are added to every permutation:
-	// "all" = blob at position i delivered again after every position j>=i,
+	// "all" = blob at position i delivered again after every position j>=i
+	// (sets of up to 4 blobs; "all" on a larger set means "ends"),
 	// "ends" = only immediately after itself and at the very end, "" = none.
 	DupsQuick, DupsThorough string
 }
@@ -179,9 +180,15 @@ func Sets() []*Set {
 	add(&Set{Name: "camlicontent", Blobs: []hs.Blob{A.Pub, pn, content, sfile, small, pn2},
 		Attrs: []string{"camliContent", "title"}, Vals: []string{refStr(sfile)}, MaxRank: 2,
 		Quick: false, DupsThorough: "ends"})
-	add(&Set{Name: "two-permanodes-order", Blobs: []hs.Blob{A.Pub, pn, pn2, content, sfile, title2},
-		Attrs: []string{"camliContent", "title"}, Vals: []string{refStr(sfile), "y"}, MaxRank: 2,
-		Quick: false, DupsThorough: "ends"})
+	// Two permanodes whose creation order flips when p1's camliContent file becomes
+	// known: without the file p1 is dated by its camliContent claim (t1 < t2 of pn2's
+	// claim), with it by the file's modtime (2014, after t2). The file has no parts, so
+	// it is indexed as soon as it arrives; the claim may be indexed long before it.
+	lateFile := world.File("late-file", "late.txt", time.Unix(1400000000, 0).UTC())
+	contentLate := A.SetAttr("set-content-late", pn.Ref, "camliContent", lateFile.Ref.String(), T(1))
+	add(&Set{Name: "two-permanodes-order", Blobs: []hs.Blob{A.Pub, pn, pn2, contentLate, lateFile, title2},
+		Attrs: []string{"camliContent", "title"}, Vals: []string{refStr(lateFile), "y"}, MaxRank: 2,
+		Quick: true, DupsThorough: "ends"})
 	add(&Set{Name: "camlicontent-small", Blobs: []hs.Blob{A.Pub, pn, content, sfile, small},
 		Attrs: []string{"camliContent"}, Vals: []string{refStr(sfile)}, MaxRank: 1,
 		Quick: true, DupsQuick: "", DupsThorough: "all"})
